@@ -49,6 +49,10 @@ pub enum FeR {
     /// the pattern itself; top limb masked to stay below the modulus. Repeated / cancelling limbs defeat
     /// limb-folding shortcuts (xor / sum of limbs used as a zero or equality test).
     LimbCombo(u64, u64, Vec<u8>),
+    /// the element whose Montgomery limbs are `rest` except that limbs i < j (below the top limb) are a pair whose
+    /// PRODUCT sits just below 2^127 (which = 0) or 2^128 (which = 1): a_i = a | 2^63, a_j = (2^127 or 2^128 - 1 - d) / a_i.
+    /// Doubled cross products and column sums of a schoolbook / Comba multiplication overflow exactly there.
+    MontProductEdge { a: u64, i: u8, j: u8, which: u8, d: u8, rest: Vec<u64> },
     /// p - 1 - k for k up to 255
     PMinusK(u8),
     /// a value below p that agrees with p in its leading `n` bits and is otherwise taken from the limbs
@@ -101,6 +105,26 @@ impl FeR {
                 let rinv = r.modpow(&(p - Z::from(2u32)), p);
                 (m * rinv) % p
             }
+            FeR::MontProductEdge { a, i, j, which, d, rest } => {
+                let lower = nlimbs - 1;
+                let i = *i as usize % lower;
+                let mut j = *j as usize % lower;
+                if j == i {
+                    j = (i + 1) % lower;
+                }
+                let ai = *a | (1u64 << 63);
+                let target: u128 = if which % 2 == 0 { (1u128 << 127) - 1 - (*d as u128) } else { u128::MAX - (*d as u128) };
+                let aj = std::cmp::min(target / (ai as u128), u64::MAX as u128) as u64;
+                let mut limbs: Vec<u64> = (0..nlimbs).map(|k| rest.get(k).copied().unwrap_or(0)).collect();
+                limbs[i] = ai;
+                limbs[j] = aj;
+                let top_bits = (p.bits() - 1) % 64;
+                limbs[nlimbs - 1] &= (1u64 << top_bits) - 1;
+                let m = crate::adapt::limbs_to_z(&limbs) % p;
+                let r = (Z::one() << (64 * nlimbs)) % p;
+                let rinv = r.modpow(&(p - Z::from(2u32)), p);
+                (m * rinv) % p
+            }
             FeR::PMinusK(k) => p - &one - Z::from(*k as u32),
             FeR::SharesTopBits(n, l) => {
                 let bits = p.bits();
@@ -140,6 +164,7 @@ impl FeR {
             FeR::Small(_) | FeR::Two => "small",
             FeR::MontPattern(_) => "montgomery-limb-pattern",
             FeR::LimbCombo(_, _, _) => "canonical-limb-combination",
+            FeR::MontProductEdge { .. } => "montgomery-limb-product-edge",
             _ => "boundary",
         }
     }
@@ -191,6 +216,7 @@ pub fn fe_strategy(nlimbs: usize) -> BoxedStrategy<FeR> {
         2 => any::<u16>().prop_map(FeR::Small),
         4 => proptest::collection::vec(0u8..4, nlimbs).prop_map(FeR::MontPattern),
         3 => limb_combo_strategy(nlimbs),
+        3 => (any::<u64>(), any::<u8>(), any::<u8>(), 0u8..2, 0u8..4, proptest::collection::vec(any::<u64>(), nlimbs)).prop_map(|(a, i, j, which, d, rest)| FeR::MontProductEdge { a, i, j, which, d, rest }),
         14 => proptest::collection::vec(any::<u64>(), nlimbs).prop_map(FeR::Limbs),
     ]
     .boxed()
@@ -728,6 +754,9 @@ pub enum RepR {
     Scaled(FeR),
     /// Z = -1
     MinusOne,
+    /// (l^2 x, l^3 y, l) with l = (a, b) a general element of the coordinate field (G1 uses a only): Z purely imaginary,
+    /// Z = (c, c), Z = (c, -c), dense Z
+    Scaled2(FeR, FeR),
     /// a representative in which the Jacobian coordinates satisfy a RELATION a shortcut might test for
     /// (kind 0: Y = 1/2, so that doubling keeps Z: Z(2P) = 2YZ = Z(P); 1: Y = v; 2: X = v; 3: Y = Z;
     /// 4: X = Z; 5: X = Y; 6: Y = -1/2; 7: Z = v from the structured generator), the scale factor found with square / cube roots in the model;
@@ -741,6 +770,12 @@ pub fn rep_strategy() -> BoxedStrategy<RepR> {
         1 => Just(RepR::MinusOne),
         4 => fq_uniformish().prop_map(RepR::Scaled),
         2 => (0u8..8, fq_strategy()).prop_map(|(k, v)| RepR::Related(k, v)),
+        3 => prop_oneof![
+            2 => fq_strategy().prop_map(|b| RepR::Scaled2(FeR::Zero, b)),
+            1 => fq_strategy().prop_map(|a| RepR::Scaled2(a.clone(), a)),
+            2 => (fq_strategy(), fq_strategy()).prop_map(|(a, b)| RepR::Scaled2(a, b)),
+            1 => (fq_uniformish(), fq_uniformish()).prop_map(|(a, b)| RepR::Scaled2(a, b)),
+        ],
     ]
     .boxed()
 }
@@ -763,6 +798,10 @@ where
     let lam: G::F = match rep {
         RepR::Normal => <G::F as Fld>::one(),
         RepR::MinusOne => <G::F as Fld>::one().neg(),
+        RepR::Scaled2(a, b) => {
+            let v = <G::F as SqrtFld>::from_fq_pair(&a.fq(), &b.fq());
+            if v.is_zero() { <G::F as Fld>::one() } else { v }
+        }
         RepR::Related(kind, f) => match p {
             Pt::Inf => {
                 let v = embed(f);
